@@ -43,6 +43,26 @@ def run_suite(scratch, files):
     return out
 
 
+def record(pid, spec, status, subs, suite, tier):
+    """keep the latest outcome per mutant in notes/mutant_results.json (feeds the DESIGN.md table)"""
+    import fcntl
+
+    path = ROOT / "notes" / "mutant_results.json"
+    path.parent.mkdir(exist_ok=True)
+    with open(path, "a+") as fh:
+        fcntl.flock(fh, fcntl.LOCK_EX)
+        fh.seek(0)
+        txt = fh.read()
+        data = json.loads(txt) if txt.strip() else {}
+        ent = data.setdefault(f"{pid}:{spec['id']}", {})
+        ent.update({"property": pid, "id": spec["id"], "note": spec.get("note", ""), "file": spec.get("file", ""), "status": status, "by": subs, "tier": tier})
+        if suite:
+            ent["repo_suite"] = suite
+        fh.seek(0)
+        fh.truncate()
+        fh.write(json.dumps(data, indent=1, sort_keys=True))
+
+
 def main():
     ap = argparse.ArgumentParser()
     ap.add_argument("property")
@@ -97,6 +117,8 @@ def main():
                 suite = " suite:" + ",".join(f"{p}={'pass' if c == 0 else 'FAIL'}" for p, c, _ in run_suite(d, files))
             subs = sorted({l.split("replay=")[1].split("/")[-1].rsplit("-", 1)[0] for l in viol})
             print(f"{pid} {s['id']}: {status} ({wall:.0f}s) by {subs}{suite}  -- {s.get('note', '')}")
+            if not a.patch and not a.expect_pass:
+                record(pid, s, status, subs, suite.strip(), a.tier)
             if a.v or status == "HARNESS-ERROR":
                 print(out[-3000:])
         finally:
